@@ -536,6 +536,13 @@ def native_failures(n, seed, limit=3):
         Q, _ = np.linalg.qr(rng.normal(size=(3, 3)))
         gmag = float(rng.choice([9.80665, 1.62, 100.0, 1e-3, rng.uniform(0, 100)]))
         tilt = float(rng.choice([0.0, 0.0, 10 ** rng.uniform(-12, 0), -10 ** rng.uniform(-12, 0)]))
+        if i % 3 == 2:
+            # the set-up along the coordinate axes, in every orientation and sense (beam along -z, gravity along +y, ...): exact zeros in the
+            # components are where special-cased code would sit
+            Q = np.zeros((3, 3))
+            for row, col in enumerate(rng.permutation(3)):
+                Q[row, col] = rng.choice([-1.0, 1.0])
+            tilt = 0.0 if i % 2 == 0 else tilt
         L1 = 10 ** rng.uniform(-1, 2)
         g = rot(np.array([0.0, -gmag, 0.0]))
         b1 = rot(np.array([0.0, np.sin(tilt), np.cos(tilt)]) * L1)
